@@ -583,10 +583,10 @@ fn wrap_fuzz(b: Vec<u8>) -> DiffCase {
 
 fn subs() -> Vec<Sub> {
     vec![
-        gen_sub("differential_strings", diff_strings, |t| t.pick(60_000, 2_000_000), check_diff),
+        gen_sub("differential_strings", diff_strings, |t| t.pick(200_000, 2_000_000), check_diff),
         super::fuzzrun::fuzz_sub::<DiffCase>("fuzz", "c06", check_diff, wrap_fuzz),
-        gen_sub("single_fault", single, |t| t.pick(40_000, 1_500_000), check),
-        gen_sub("combined_faults", combined, |t| t.pick(10_000, 400_000), check),
+        gen_sub("single_fault", single, |t| t.pick(100_000, 1_500_000), check),
+        gen_sub("combined_faults", combined, |t| t.pick(30_000, 400_000), check),
         enum_sub("foreign_byte_sweep", sweep, check),
     ]
 }
